@@ -378,7 +378,11 @@ class _Canon(ast.NodeTransformer):
                             if (isinstance(x, ast.Name) and x.id == base.id and id(x) not in fine) or isinstance(x, (ast.Await, ast.Yield, ast.YieldFrom, ast.NamedExpr, ast.Lambda)):
                                 ok = False
             if ok and len({ast.dump(t) for t in tg}) == len(tg):
-                return [ast.copy_location(ast.Assign(targets=[t], value=val, type_comment=None), node) for t, val in zip(tg, vs)]
+                outs = []
+                for t, val in zip(tg, vs):
+                    r_ = self.visit_Assign(ast.copy_location(ast.Assign(targets=[t], value=val, type_comment=None), node))  # `i = i + 1` of the split is `i += 1`
+                    outs.extend(r_ if isinstance(r_, list) else [r_])
+                return outs
             # otherwise through temporaries, which is what the tuple form does: every value first, then every store, in order
             if all(isinstance(t, ast.Name) or (isinstance(t, ast.Attribute) and self._chain(t)) for t in tg):
                 _Canon._tup = getattr(_Canon, "_tup", 0) + 1
